@@ -98,7 +98,7 @@ def draw_vc(ntm, nfm, with_lengths):
                 goals.append(("freq_mask_%d" % m, z3.And(0 <= wd, wd <= MFM, wd <= F, 0 <= st, st + wd <= F)))
         else:
             goals.append(("freq_masks_disabled_only_when_a_limit_is_zero", z3.Or(MFM == 0, z3.BoolVal(nfm == 0))))
-        return [("all", z3.And([g for _, g in goals]))] if goals else True
+        return goals if goals else True
 
     pre = [T >= 1, F >= 1, L >= 1, L <= T, EPS > 0, EPS <= z3.RealVal(1) / 1024, MTW >= 0, MFW >= 0, MTM >= 0, MFM >= 0, MTMP >= 0, MTMP <= 1, NTMP >= 0, NTMP <= 1]
     return VC("C08.P.draw_bounds", name, M, "spec_augment_draw_parameters", thunk, pre=pre, posts=[("limits", post)],
@@ -111,11 +111,10 @@ def draw_vc(ntm, nfm, with_lengths):
 
 
 def vcs(ctx):
-    if ctx.quick:  # one configuration per enabled/disabled combination; the thorough tier runs the full grid of mask counts
+    if ctx.quick:  # one configuration per enabled/disabled combination; the thorough tier widens the mask counts
         return [draw_vc(2, 1, True), draw_vc(1, 0, False), draw_vc(0, 1, True)]
     out = []
     for ntm in (0, 1, 2, 3):
         for nfm in (0, 1, 2):
-            for wl in (True, False):
-                out.append(draw_vc(ntm, nfm, wl))
+            out.append(draw_vc(ntm, nfm, (ntm + nfm) % 2 == 0))
     return out
